@@ -82,8 +82,8 @@ class Comm:
 
 def cases_start(tier):
     for n_eval in (0, 1, 2) + ((3, 4) if tier == "thorough" else ()):
-        for fault in ("none", "evaluator-raises", "child-reports-error", "child-reports-empty-error"):
-            if fault == "evaluator-raises" and n_eval == 0:
+        for fault in ("none", "evaluator-raises", "driver-aborts", "child-reports-error", "child-reports-empty-error"):
+            if fault in ("evaluator-raises", "driver-aborts") and n_eval == 0:
                 continue
             yield "evaluations=%d/%s" % (n_eval, fault), {"n_eval": n_eval, "fault": fault}
 
@@ -102,7 +102,7 @@ def scn_start(T, case):
     alive = T.choose(len(script) + 3)
     status = (0, 3, -9, -15)[T.choose(4)]  # normal exit, error exit, killed by SIGKILL, killed by SIGTERM (by someone else)
     retry = T.choose(2)
-    raise_at = T.choose(n_eval) if fault == "evaluator-raises" else None
+    raise_at = T.choose(n_eval) if fault in ("evaluator-raises", "driver-aborts") else None
     proc = Process(log, alive, status)
     comm = Comm(log, script, retry)
     calls = []
@@ -110,6 +110,12 @@ def scn_start(T, case):
     def callback(variables, *, return_functions, return_gradients):
         calls.append((variables.copy(), return_functions, return_gradients))
         if raise_at is not None and len(calls) - 1 == raise_at:
+            if fault == "driver-aborts":
+                # the optimizer driver ends a run this way (max_functions reached, user abort, too few realizations)
+                from ropt.enums import OptimizerExitCode
+                from ropt.exceptions import OptimizationAborted
+
+                raise OptimizationAborted(exit_code=OptimizerExitCode.MAX_FUNCTIONS_REACHED)
             raise UserError("evaluator failed")
         return np.array([1.5, 2.5]), (np.array([[0.25, 0.5]]) if return_gradients else np.array([]))
 
@@ -149,9 +155,13 @@ def scn_start(T, case):
         opt._optimizer_callback = callback
         opt._process_pid = None
         x0 = np.array([0.125, 0.75])
+        from ropt.exceptions import OptimizationAborted as _Aborted
+
         try:
             opt.start(x0)
             outcome = "returned"
+        except _Aborted:
+            outcome = "aborted"
         except UserError:
             outcome = "user-error"
         except RuntimeError as exc:
@@ -160,7 +170,11 @@ def scn_start(T, case):
         if restore:
             for k, v in restore[1].items():
                 setattr(restore[0], k, v)
-    evaluator_raised = raise_at is not None and len(calls) > raise_at
+    evaluator_raised = raise_at is not None and len(calls) > raise_at and fault == "evaluator-raises"
+    if fault == "driver-aborts" and raise_at is not None and len(calls) > raise_at:
+        # the abort reaches the caller (the driver turns it into the exit code) - and the child is told to stop and reaped like on
+        # every other exit path (checked below)
+        T.prove("C20.start.an_abort_of_the_driver_is_passed_on_to_the_caller", outcome == "aborted")
     child_error_seen = errmsg is not None and {"error": errmsg} not in comm.script and len(comm.script) == 0
     # ---- death is never success
     if outcome == "returned":
@@ -568,6 +582,22 @@ def scn_child_run(T, case):
     T.prove("C20.child_run.communicator_is_closed", log[-1] == ("close",))
 
 
+# ------------------------------------------------------------------------------------ the success threshold of a validated configuration
+def cases_threshold(tier):
+    for ms in (None, 0, 2, 5):
+        for zero in (False, True):
+            yield "min_success=%s%s" % (ms, "/one-zero-weight" if zero else ""), {"v": "realizations", "ms": ms, "zero": zero}
+
+
+def scn_threshold(T, case):
+    """realization_min_success as this property reads it is the VALIDATED value: default and clamp are the ensemble size (a
+    zero-weight realization counts), a plain Python integer (C18's validator scenario under this property's prefix)."""
+    from contracts import C18
+    from contracts.reuse import Renamed
+
+    C18.scn_validators(Renamed(T, "C18.", "C20.config."), case)
+
+
 SCENARIOS = [
     Scenario("start_request_loop", scn_start, cases_start, {"quick": 30, "thorough": 200}),
     Scenario("child_side_forwarding", scn_child, cases_child, {"quick": 2, "thorough": 10}),
@@ -575,6 +605,7 @@ SCENARIOS = [
     Scenario("native_transport_and_processes", scn_native, cases_native, {"quick": 5, "thorough": 1}),
     Scenario("pipe_communicator_against_abstract_os", scn_comm, cases_comm, {"quick": 1, "thorough": 1}),
     Scenario("child_side_run", scn_child_run, cases_child_run, {"quick": 1, "thorough": 1}),
+    Scenario("validated_success_threshold", scn_threshold, cases_threshold, {"quick": 2, "thorough": 10}),
 ]
 
 MANIFEST = {
